@@ -304,7 +304,7 @@ func propC10(c *Check) {
 	tn := instrSet(nx)
 	std := "$2.(app.StdTx)"
 	c.RequireFact(ah, "R2", "StdTx", lit(std+"#1"), tn, "next()")
-	c.RequireFact(ah, "R2", "empty-memo", patLE("len(StdTx.GetMemo("+std+"#0))", "0")+"|"+lit(EQ("0", "len(StdTx.GetMemo("+std+"#0))")), tn, "next()")
+	c.RequireFact(ah, "R2", "empty-memo", lit(EQ("0", "len(StdTx.GetMemo("+std+"#0))"))+"|"+lit(EQ("\"\"", "StdTx.GetMemo("+std+"#0)")), tn, "next()")
 	c.RequireFact(ah, "R2", "signers-readable", lit("(StdTx.GetSigners("+std+"#0)#1 == nil)"), tn, "next()")
 	c.RequireFact(ah, "R2", "one-signer", lit(EQ("1", "len(StdTx.GetSigners("+std+"#0)#0)")), tn, "next()")
 	to := "StdTx.GetTimeoutHeight(" + std + "#0)"
